@@ -630,6 +630,7 @@ static bool calm(int m) {
     return W->has_ctx && W->slots[m].ctx_gen == W->ctx_registrations && !frame_on_stack("dereg", m) && !frame_on_stack_any("ctx_dereg") && !frame_on_stack_any("reg");
 }
 
+int g_src_unpollable_pid = -1;
 void exec_op(const Op &op, bool in_cb, int cb_slot) {
     const std::string &n = op.name;
     if (R->horizon_hit && n != "ctx_quit") { /* keep going: teardown still runs */ }
@@ -812,7 +813,10 @@ void exec_op(const Op &op, bool in_cb, int cb_slot) {
                 break;
             }
             case 1: R->k.env_raise_signal((int)(1 + (x % 30 + 30) % 30)); break;
-            case 2: R->k.env_pid_exit((int)(100 + (x % 8 + 8) % 8)); break;
+            case 2:
+                if (W->prog.get("reap", 0) && (y & 2)) R->k.env_pid_reap((int)(100 + (x % 8 + 8) % 8));   // gone for good: cannot be polled any more
+                else R->k.env_pid_exit((int)(100 + (x % 8 + 8) % 8));
+                break;
             case 3: R->k.env_touch(PATH_POOL[(x % PATH_POOL_N + PATH_POOL_N) % PATH_POOL_N], 0x2 /*IN_MODIFY*/ | 0x100 /*IN_CREATE*/, (y & 1) != 0); break;
             case 4: R->k.env_clock_step(x * 1000000L); break;
             }
@@ -1083,7 +1087,9 @@ void exec_op(const Op &op, bool in_cb, int cb_slot) {
             pd.events = 0;
             if (n == "src_pid") {
                 unsigned fl = src_flags_from(op.arg(2) & (1 | 2 | 16 | 32));
+                g_src_unpollable_pid = valid ? (int)pd.pid : -1;   // (a process that is gone by the time of the call cannot be polled: a module that is polling its sources may refuse it)
                 do_register("src_pid", M_SRC_TYPE_PID, pd.pid, 0, valid && prio_valid(fl, false), fl, [&](const void *ud) { return m_mod_src_register_pid(h, &pd, (m_src_flags)fl, ud); }, nullptr);
+                g_src_unpollable_pid = -1;
             } else if (valid) {
                 do_deregister("unsrc_pid", M_SRC_TYPE_PID, pd.pid, 0, [&]() { return m_mod_src_deregister_pid(h, &pd); });
             }
